@@ -97,6 +97,9 @@ func Discharge(o *Obligation, dir string, timeoutS int, all bool) {
 		o.Status, o.Solver = "discharged", "trivial"
 		return
 	}
+	if o.Cover && timeoutS > 3 {
+		timeoutS = 3 // vacuity guards only need a quick sat / unsat; unknown is not a failure
+	}
 	file := filepath.Join(dir, mangle(o.Name)+".smt2")
 	os.WriteFile(file, []byte(o.Script()), 0o644)
 	ctx, cancel := context.WithCancel(context.Background())
